@@ -34,7 +34,7 @@ class CPoint:
 
     def label(self):
         r = ",".join(f"{l}.{k}:{kind}" for l, k, kind in self.regs) or "none"
-        return f"[{r}]@{self.entry}"
+        return f"[{r}]@{self.entry}" + ("" if self.tname == "AL" else f"/{self.tname}")
 
 
 KEYEXPR = {"alias": "AL", "exact": "List[int]", "origin": "list"}
@@ -89,10 +89,16 @@ def class_source(p: CPoint):
                 md += [f"'serialize': {marker(l, k, 'ser')}", f"'deserialize': {marker(l, k, 'de')}"]
         if l == "fstrategy":
             md.append(f"'serialization_strategy': {regexpr(l, k, kind)}")
-    fld = f"x: AL = field(metadata={{{', '.join(md)}}})" if md else "x: AL"
+    ann = "AL" if p.tname == "AL" else "Annotated[_GT, 'alias']"
+    fld = f"x: {ann} = field(metadata={{{', '.join(md)}}})" if md else f"x: {ann}"
     mixin = "DataClassDictMixin" if p.entry == "mixin" else ""
-    src += ["@dataclass", f"class C({mixin}):" if mixin else "class C:", f"    {fld}", "    class Config(BaseConfig):",
-            f"        serialization_strategy = {ssdict('cfg')}"]
+    if p.tname == "GEN":
+        # the field lives in a generic ancestor: its alias key is Annotated[_GT, 'alias'] with _GT := List[int]
+        src += ["_GT = TypeVar('_GT')", "@dataclass", f"class GBase(Generic[_GT], {mixin}):" if mixin else "class GBase(Generic[_GT]):", f"    {fld}",
+                "@dataclass", "class C(GBase[List[int]]):", "    class Config(BaseConfig):", f"        serialization_strategy = {ssdict('cfg')}"]
+    else:
+        src += ["@dataclass", f"class C({mixin}):" if mixin else "class C:", f"    {fld}", "    class Config(BaseConfig):",
+                f"        serialization_strategy = {ssdict('cfg')}"]
     if any(l == "cfgd" for (l, _) in regs):
         src.append("        dialect = CfgD")
     if p.entry == "mixin" and any(l == "call" for (l, _) in regs):
@@ -159,7 +165,7 @@ def resolver(mod, p: CPoint, unit_levels):
         return None
 
     def resolve(t, direction):
-        if t is AL:
+        if t is AL or (p.tname == "GEN" and t == AL):
             return winner(direction)
         return None
 
@@ -206,12 +212,12 @@ def c10_task(payload):
                     object.__setattr__(pt, "exc_details", False)
                     object.__setattr__(pt, "dialect_value", dialect)
                     res = g1.verify_from_dict(cls, fn, dict(r.globals), pt, view_factory=g4.make_dec_view(cls, genf), inline=table)
-                    obs.append(g4._ob(oid, res, r, "REF_DEC", cls))
+                    obs.append(g4._ob(oid, res, r, "REF_DEC", cls, genf, src))
                 else:
                     pp = g2.PPoint(())
                     object.__setattr__(pp, "dialect_value", dialect)
                     res = g2.verify_to_dict(cls, fn, dict(r.globals), pp, ("cfgd", "cfg"), frozenset(), view_factory=g4.make_enc_view(cls, genf), inline=table)
-                    obs.append(g4._ob(oid, res, r, "REF_ENC", cls))
+                    obs.append(g4._ob(oid, res, r, "REF_ENC", cls, genf, src))
             except (pysym.NotInSubset, ref.Unsupported) as e:
                 obs.append(dict(id=oid, status="undecided", detail=f"outside the verified subset: {e}", unit=r.text[:600]))
         if not final:
@@ -249,6 +255,10 @@ def lattice(tier, seed=0):
             pts.append(CPoint(tuple(sorted(regs)), entry))
         pts.append(CPoint(tuple((s[0], s[1], "dict") for s in avail), entry))
         pts.append(CPoint(tuple((s[0], s[1], "dict") for s in avail if s[0] != "option"), entry))
+    # the same field declared in a generic ancestor (alias key = the annotation with its parameters resolved)
+    for q in list(pts):
+        if len(q.regs) <= 2 and all(kind in ("dict", "strategy") for (_, _, kind) in q.regs) and (tier == "thorough" or zlib.crc32(q.label().encode()) % 2 == 0 or len(q.regs) == 1):
+            pts.append(CPoint(q.regs, q.entry, "GEN"))
     seen, out = set(), []
     for p in pts:
         if p.label() not in seen and valid(p):
